@@ -355,11 +355,23 @@ func runTree(seed int64, idx int) {
 				sibs = g
 			}
 		}
+		// the siblings and everything below them: a sibling that has signalled DONE may still have children running,
+		// and they belong to the group's fate as well
+		var cands []*svc
 		for _, sb := range sibs {
 			if sb == x {
 				continue
 			}
-			// was the sibling running (entered, not exited) at the time of the failure, in a waiting incarnation?
+			cands = append(cands, sb)
+			for _, d := range t.nodes {
+				if strings.HasPrefix(d.dn, sb.dn+".") {
+					cands = append(cands, d)
+				}
+			}
+		}
+		for _, sb := range cands {
+			below := !containsSvc(sibs, sb)
+			// was the service running (entered, not exited) at the time of the failure, in a waiting incarnation?
 			lastEnter, inc := -1, -1
 			for j := 0; j < i; j++ {
 				if evs[j].DN == sb.dn {
@@ -374,6 +386,20 @@ func runTree(seed int64, idx int) {
 			if lastEnter < 0 || inc < len(sb.fails) || sb.stable.Kind != "wait" {
 				continue
 			}
+			if below {
+				// an ancestor between the sibling and this service that is itself failing / restarting at that moment
+				// re-creates it anyway: only judge services whose chain up to the sibling is stable
+				stableChain := true
+				for p := sb.parent; p != nil && !containsSvc(sibs, p); p = p.parent {
+					if len(p.fails) > 0 {
+						stableChain = false
+					}
+				}
+				if !stableChain {
+					continue
+				}
+				r.Count("sibling_subtree_cancellations_checked", 1)
+			}
 			r.Count("sibling_cancellations_checked", 1)
 			seen := false
 			for j := i; j < len(evs); j++ {
@@ -386,7 +412,11 @@ func runTree(seed int64, idx int) {
 				}
 			}
 			if !seen {
-				r.Violation("group-sibling-not-cancelled-after-failure", w(map[string]interface{}{"failed": e.DN, "failed_at": e.T.String(), "sibling": sb.dn, "sibling_incarnation": inc}))
+				cls := "group-sibling-not-cancelled-after-failure"
+				if below {
+					cls = "service-below-a-group-sibling-not-cancelled-after-failure"
+				}
+				r.Violation(cls, w(map[string]interface{}{"failed": e.DN, "failed_at": e.T.String(), "sibling": sb.dn, "sibling_incarnation": inc}))
 			}
 		}
 	}
@@ -546,4 +576,13 @@ func main() {
 	r.Assume("\"eventually restarted\" is restated as bounded progress: all scripted failures are finite, so within 40 s every waiting service must be running exactly once and every done service be done; 40 s is far above the back-off ceiling reachable by the scripts (<= 3 consecutive pre-healthy failures, < 5 s)",
 		"panic capture on (no WithPropagatePanic)")
 	r.Finish("evaluations", "trees_distinct", "random trees of depth <= 3 (<= 22 services, 1-3 groups per node, 1-3 members per group); per-incarnation scripts: fail by error / nil return / panic after 0-600 ms, before or after signalling healthy, then wait-until-cancelled (lingering 0-300 ms) or signal done; 16 trees concurrently under -race; distinct non-trivial = distinct tree+script descriptions", 20)
+}
+
+func containsSvc(l []*svc, x *svc) bool {
+	for _, y := range l {
+		if y == x {
+			return true
+		}
+	}
+	return false
 }
